@@ -40,7 +40,7 @@ type tierPlan struct {
 func planFor(tier string) tierPlan {
 	p := tierPlan{plainBatches: 192, plainRuns: 20, raceBatches: 192, raceRuns: 12, minimiseBudget: 90 * time.Second, batchTimeout: 10 * time.Minute}
 	if tier == "thorough" {
-		p = tierPlan{plainBatches: 3200, plainRuns: 20, raceBatches: 1200, raceRuns: 12, minimiseBudget: 5 * time.Minute, batchTimeout: 20 * time.Minute}
+		p = tierPlan{plainBatches: 6400, plainRuns: 20, raceBatches: 2400, raceRuns: 12, minimiseBudget: 5 * time.Minute, batchTimeout: 20 * time.Minute}
 	}
 	if v := os.Getenv("VERIF_BUDGET_RUNS"); v != "" {
 		if n, err := strconv.Atoi(v); err == nil && n > 0 {
